@@ -293,6 +293,7 @@ func TestConf_HistoryPaging(t *testing.T) {
 			idx  int
 		}
 		all := map[key]bool{}
+		content := map[key]fat2.Transaction{} // what was recorded under each (hash, index)
 		byAddr := map[factom.FAAddress]map[key]bool{}
 		nb := 40 + r.Intn(30) // 40..69 batches of 1..3 transactions: more than two pages of 50 at one height
 		for b := 0; b < nb; b++ {
@@ -303,6 +304,7 @@ func TestConf_HistoryPaging(t *testing.T) {
 			for i, tr := range batch.Transactions {
 				k := key{*batch.Entry.Hash, i}
 				all[k] = true
+				content[k] = tr
 				parties := []factom.FAAddress{tr.Input.Address}
 				for _, o := range tr.Transfers {
 					parties = append(parties, o.Address)
@@ -339,7 +341,29 @@ func TestConf_HistoryPaging(t *testing.T) {
 					t.Fatalf("CONF leaf=historySelectHelper(%s) clause=count_equals_number_of_recorded_actions: %d vs %d", what, count, len(want))
 				}
 				for _, a := range acts {
-					seen[key{*a.Hash, a.TxIndex}]++
+					k := key{*a.Hash, a.TxIndex}
+					seen[k]++
+					// the returned action reads as it was recorded, whatever rows share the page with it
+					tr, ok := content[k]
+					if !ok {
+						continue
+					}
+					if a.FromAddress == nil || *a.FromAddress != tr.Input.Address || a.FromAsset != tr.Input.Type.String() || a.FromAmount != int64(tr.Input.Amount) {
+						t.Fatalf("CONF leaf=historySelectHelper(%s) clause=returned_action_equals_recorded_action (input) trial=%d action (%x,%d)", what, trial, k.hash[:4], k.idx)
+					}
+					if tr.IsConversion() {
+						if a.TxAction != pegnet.Conversion || a.ToAsset != tr.Conversion.String() || len(a.Outputs) != 0 {
+							t.Fatalf("CONF leaf=historySelectHelper(%s) clause=returned_action_equals_recorded_action trial=%d: conversion (%x,%d) into %s is returned as action %d into %q with %d outputs %v", what, trial, k.hash[:4], k.idx, tr.Conversion, a.TxAction, a.ToAsset, len(a.Outputs), a.Outputs)
+						}
+					} else {
+						bad := a.TxAction != pegnet.Transfer || len(a.Outputs) != len(tr.Transfers)
+						for j := 0; !bad && j < len(tr.Transfers); j++ {
+							bad = a.Outputs[j].Address != tr.Transfers[j].Address || a.Outputs[j].Amount != int64(tr.Transfers[j].Amount)
+						}
+						if bad {
+							t.Fatalf("CONF leaf=historySelectHelper(%s) clause=returned_action_equals_recorded_action trial=%d: transfer (%x,%d) with outputs %v is returned as action %d with outputs %v", what, trial, k.hash[:4], k.idx, tr.Transfers, a.TxAction, a.Outputs)
+						}
+					}
 				}
 				if len(acts) < pegnet.QueryLimit {
 					break
